@@ -11,6 +11,7 @@ import (
 func init() {
 	reg("C03.cascade", ruleNumCascade)
 	reg("C03.flag", ruleNumFlag)
+	reg("C17.numtag", ruleNumTagWord)
 	reg("C03.const", ruleNumConst)
 	reg("C01.num.shape", ruleNumShape)
 	reg("C01.num.loop", ruleNumLoop)
@@ -1547,4 +1548,57 @@ func pathHasZeroTest(pa *Path, p *GoProg, tagObj types.Object) bool {
 		}
 	}
 	return false
+}
+
+// C17.numtag — the identifier word parseNumber hands to the tape writer is one of exactly four constants: 'l'<<56,
+// 'u'<<56, 'd'<<56 and 'd'<<56|FloatOverflowedInteger (flag in the payload, not in the tag byte); 0 means "not a number".
+func ruleNumTagWord(c *Ctx) {
+	p := c.G()
+	fd := p.Func("parseNumber")
+	if fd == nil {
+		c.Unresolved("parseNumber", "function not found")
+		return
+	}
+	sps, ok := p.SymPaths(fd, 200000, nil)
+	if !ok {
+		c.Undecided("parseNumber:paths", p.Pos(fd), "too many paths")
+		return
+	}
+	off, ok1 := p.PkgConstInt("JSONTAGOFFSET")
+	fl, ok2 := p.PkgConstInt("FloatOverflowedInteger")
+	if !ok1 || !ok2 {
+		c.Unresolved("JSONTAGOFFSET/FloatOverflowedInteger", "constant not found")
+		return
+	}
+	want := map[int64]string{
+		0:                          "not a number",
+		int64('l') << uint(off):    "integer",
+		int64('u') << uint(off):    "unsigned",
+		int64('d') << uint(off):    "float",
+		int64('d')<<uint(off) | fl: "float, integer notation overflowed",
+	}
+	seen := map[int64]bool{}
+	bad := ""
+	var badNode ast.Node = fd
+	for _, sp := range sps {
+		if !sp.Feasible() || len(sp.Ret) != 2 {
+			continue
+		}
+		if !sp.Ret[0].IsConst() {
+			bad, badNode = "a non-constant identifier word "+sp.Ret[0].String(), sp.RetNode
+			continue
+		}
+		k := sp.Ret[0].K
+		if _, ok := want[k]; !ok {
+			bad, badNode = fmt.Sprintf("identifier word %#x (tag byte %q, payload %#x)", uint64(k), rune(uint64(k)>>uint(off)), uint64(k)&(1<<uint(off)-1)), sp.RetNode
+			continue
+		}
+		seen[k] = true
+		if k == 0 && !(sp.Ret[1].IsConst() && sp.Ret[1].K == 0) {
+			bad, badNode = "a rejected number with a non-zero value word", sp.RetNode
+		}
+	}
+	c.Check(bad == "", "parseNumber:id-word", p.Pos(badNode), "every returned identifier word is 0, 'l'<<56, 'u'<<56, 'd'<<56 or 'd'<<56|1",
+		"parseNumber returns "+bad+": the tape gets a tag outside the documented set (or the overflow flag lands in the tag byte)", "[18446744073709551616] (integer notation overflowing uint64)")
+	c.Check(len(seen) == len(want), "parseNumber:id-word:all", p.Pos(fd), "all five identifier words are produced on some path", fmt.Sprintf("only %d of the 5 identifier words are produced", len(seen)), "")
 }
